@@ -210,7 +210,10 @@ def run(ctx):
             # dies on entering it (= right after the (k-1)-th rename took effect)
             nren = sum(1 for o in ops if o.startswith("R:"))
             dist[f"renames:{label}"] = nren
-            points = [("out", v, k) for v in ("EIO", "KILL") for k in ks] + [("ren", v, k) for v in ("EIO", "KILL") for k in range(1, nren + 1)]
+            # error returns at *every* output syscall (a one-shot error is what a swallowed result hides: it
+            # may matter at exactly one write), process deaths at the sampled ones in the quick tier
+            all_ks = list(range(1, maxk + 1))
+            points = [("out", "EIO", k) for k in all_ks] + [("out", "KILL", k) for k in ks] + [("ren", v, k) for v in ("EIO", "KILL") for k in range(1, nren + 1)]
             for what, variant, k in points:
                 if True:
                     prev = fresh_dir(dest, prevdir if with_prev else None)
